@@ -1,4 +1,5 @@
 """C25 - log collection delivers every message sent before collection (utils/log.rs, LogThread)."""
+import concurrent.futures as cf
 import json
 import os
 import re
@@ -25,36 +26,27 @@ MANIFEST = {
     "design_ref": "DESIGN.md section 6, C25",
 }
 
-QUICK_SCHEDS = ["33", "222"]
-THOROUGH_SCHEDS = ["33", "222", "43", "322", "2211"]
-
-
-def tlc_schedules(rep, names):
+def tlc_schedules(rep, quick):
     """spec -> impl: TLC enumerates all sequential schedules of the specification; returns the file."""
     path = os.path.join(core.BUILD, "traces", "C25_schedules.ndjson")
     os.makedirs(os.path.dirname(path), exist_ok=True)
-    seen, total = set(), 0
+    name = "MC_LogSched_%s" % ("Quick" if quick else "Thorough")
+    r = core.tlc("mc/MC_LogSched.tla", cfg=name + ".cfg", workers=1, timeout=1800)
+    rep.add_tlc(r)
+    if r.error or not r.finished_ok:
+        raise ToolError("%s: %s" % (name, r.error or r.out[-2000:]))
+    lines = sorted(set(re.findall(r'^<<"SCHED", <<[-\d, ]*>>, <<[-\d, ]*>>>>$', r.out, re.M)))
+    if not lines:
+        raise ToolError("%s printed no schedule" % name)
     with open(path, "w") as f:
-        for name in names:
-            r = core.tlc("mc/MC_LogSched.tla", cfg="MC_LogSched_%s.cfg" % name, workers=1, timeout=1200)
-            rep.add_tlc(r)
-            if r.error or not r.finished_ok:
-                raise ToolError("MC_LogSched_%s: %s" % (name, r.error or r.out[-2000:]))
-            k = 0
-            for m in re.finditer(r'^<<"SCHED", <<([-\d, ]*)>>, <<([-\d, ]*)>>>>$', r.out, re.M):
-                if m.group(0) in seen:
-                    continue
-                seen.add(m.group(0))
-                f.write(json.dumps({"counts": [int(x) for x in m.group(1).split(",")],
-                                    "hist": [int(x) for x in m.group(2).split(",")]}) + "\n")
-                k += 1
-            if k == 0:
-                raise ToolError("MC_LogSched_%s printed no schedule" % name)
-            total += k
-            rep.cov.setdefault("mc_runs", []).append({"instance": "MC_LogSched_" + name, "states_generated": r.generated,
-                                                      "distinct_states": r.distinct, "schedules": k, "wall_s": round(r.wall, 1)})
-            log("[mc] MC_LogSched_%s: %d schedules, %d states, %.1fs" % (name, k, r.distinct, r.wall))
-    return path, total
+        for x in lines:
+            m = re.match(r'<<"SCHED", <<([-\d, ]*)>>, <<([-\d, ]*)>>>>', x)
+            f.write(json.dumps({"counts": [int(v) for v in m.group(1).split(",")],
+                                "hist": [int(v) for v in m.group(2).split(",")]}) + "\n")
+    rep.cov.setdefault("mc_runs", []).append({"instance": name, "states_generated": r.generated, "distinct_states": r.distinct,
+                                              "schedules": len(lines), "wall_s": round(r.wall, 1)})
+    log("[mc] %s: %d schedules, %d states, %.1fs" % (name, len(lines), r.distinct, r.wall))
+    return path, len(lines)
 
 
 def validate(rep, files, parallel=4, timeout=3000):
@@ -173,25 +165,35 @@ def check(seed, tier):
     quick = tier != "thorough"
     core.build_harness()
 
-    # (M) the specification itself: all interleavings; every action must be covered
-    core.mc(rep, "mc/MC_LogThread.tla", "MC_LogThread_2x3.cfg", workers=4, coverage=True, label="MC_LogThread_2x3", timeout=3000)
-    if not quick:
-        core.mc(rep, "mc/MC_LogThread.tla", "MC_LogThread_3x2.cfg", workers=4, coverage=False, label="MC_LogThread_3x2", timeout=3000)
-    core.mc(rep, "mc/MC_LogThreadLive.tla", "MC_LogThreadLive_21.cfg" if quick else "MC_LogThreadLive_2x3.cfg", workers=4,
-            label="MC_LogThread_liveness", timeout=3000)
+    # (M) the specification itself, all interleavings - runs in the background while (T) proceeds
+    def model_check():
+        if quick:   # every action must be covered (small instance), then 2 x 3 without the coverage overhead
+            core.mc(rep, "mc/MC_LogThread.tla", "MC_LogThread_cov.cfg", workers=2, coverage=True, label="MC_LogThread_cov", timeout=3000)
+            core.mc(rep, "mc/MC_LogThread.tla", "MC_LogThread_2x3.cfg", workers=4, label="MC_LogThread_2x3", timeout=3000)
+            core.mc(rep, "mc/MC_LogThreadLive.tla", "MC_LogThreadLive_21.cfg", workers=2, label="MC_LogThreadLive_21", timeout=3000)
+        else:
+            core.mc(rep, "mc/MC_LogThread.tla", "MC_LogThread_2x3.cfg", workers=4, coverage=True, label="MC_LogThread_2x3", timeout=6000)
+            core.mc(rep, "mc/MC_LogThread.tla", "MC_LogThread_3x2.cfg", workers=6, label="MC_LogThread_3x2", timeout=6000)
+            core.mc(rep, "mc/MC_LogThreadLive.tla", "MC_LogThreadLive_2x3.cfg", workers=4, label="MC_LogThreadLive_2x3", timeout=6000)
+    pool = cf.ThreadPoolExecutor(max_workers=1)
+    mc_job = pool.submit(model_check)
 
-    # (T) spec -> impl: schedules enumerated by TLC, executed by one driver thread on the real code
-    sched_file, nsched = tlc_schedules(rep, QUICK_SCHEDS if quick else THOROUGH_SCHEDS)
-    os.environ["C25_SCHED"] = sched_file
-    meta_s = core.gen("C25", seed, tier, shards=4 if quick else 8, sub="sched")
-    # (T) impl -> spec: real threads
-    meta_t = core.gen("C25", seed, tier, shards=4 if quick else 8, sub="threads")
-    validate(rep, meta_s["files"] + meta_t["files"])
+    try:
+        # (T) spec -> impl: schedules enumerated by TLC, executed by one driver thread on the real code
+        sched_file, nsched = tlc_schedules(rep, quick)
+        os.environ["C25_SCHED"] = sched_file
+        meta_s = core.gen("C25", seed, tier, shards=2 if quick else 6, sub="sched")
+        # (T) impl -> spec: real threads
+        meta_t = core.gen("C25", seed, tier, shards=2 if quick else 6, sub="threads")
+        validate(rep, meta_s["files"] + meta_t["files"], parallel=4)
 
-    # canaries on the deterministic (sched) shard: one certain violation per clause
-    for name, mut in (("Delivered", canary_delivered), ("GeneralOrder", canary_order), ("LastWins", canary_lastwins)):
-        core.canary(rep, TRACE_SPEC, meta_s["files"][0], mut, n=6000, deque=True, stateful=True)
-        rep.notes[-1] += " [clause %s]" % name
+        # canaries on the deterministic (sched) shard: one certain violation per clause
+        for name, mut in (("Delivered", canary_delivered), ("GeneralOrder", canary_order), ("LastWins", canary_lastwins)):
+            core.canary(rep, TRACE_SPEC, meta_s["files"][0], mut, n=1500, deque=True, stateful=True)
+            rep.notes[-1] += " [clause %s]" % name
+    finally:
+        mc_job.result()      # re-raises a ToolError of the model-checking runs
+        pool.shutdown()
 
     rep.traces = meta_s["cases"] + meta_t["cases"]
     rep.events = meta_s["events"] + meta_t["events"]
@@ -207,8 +209,8 @@ def check(seed, tier):
         "tlc_schedules": nsched, "schedule_histories": meta_s["cases"],
         "exhaustive": False,
         "mc_runs": rep.cov.get("mc_runs"), "trusted_base": TRUSTED,
-    }, ["model checking is exhaustive for the stated instances only (2 senders x 3 messages%s, 2 addresses); liveness under weak fairness of the collector and the owner"
-        % ("" if quick else " and 3 senders x 2 messages"),
+    }, ["model checking is exhaustive for the stated instances only (2 senders x 3 messages%s, 2 addresses); liveness under weak fairness of the collector "
+        "and the owner, on %s" % (("", "2 senders with 2 + 1 messages") if quick else (" and 3 senders x 2 messages", "2 senders x 3 messages")),
         "the enqueue of a send is an internal step between the ticks taken before and after Sender::send (crossbeam's unbounded channel is linearisable); "
         "ticks come from one AtomicU64 with SeqCst, so tick order is consistent with real time; no wall-clock ordering is used",
         "the order among returned warnings / among returned addressed logs is not part of the property and is not checked (the code returns key order; "
